@@ -275,6 +275,22 @@ def wrap_container(kind, td):
     if kind == "params":
         from tensordict import TensorDictParams
         return TensorDictParams(td.unlock_() if td.is_locked else td, no_convert=True)
+    if kind == "nested_lazy":
+        # every first-level nested tensordict that holds something becomes a lazy stack of its rows (same content, same names)
+        from tensordict import LazyStackedTensorDict, TensorDictBase
+        if td.batch_dims == 0:
+            return td
+        was_locked = td.is_locked
+        if was_locked:
+            td.unlock_()
+        for k in list(td.keys()):
+            v = td._get_str(k, None)
+            if isinstance(v, TensorDictBase) and len(list(v.keys(True, True))) > 0:
+                nm = v.names[0] if v._has_names() else None
+                td._set_str(k, LazyStackedTensorDict(*[m.clone() for m in v.unbind(0)], stack_dim=0, stack_dim_name=nm), inplace=False, validated=True)
+        if was_locked:
+            td.lock_()
+        return td
     raise ValueError(kind)
 
 
@@ -391,6 +407,8 @@ def run_binary_case(ctx, name, ref, self_kind, other_kind, mode, other_mode, dfl
     elif non_fused_empty:
         # these three do not go through torch._foreach_*: on an empty operand list they return None where the fused ops raise
         run.count(site + ".skipped", "non-fused op, empty intersection")
+    elif container == "nested_lazy":
+        pass        # the plain model does not describe a nested lazy stack (known findings): oracle only
     else:
         run.corr(site, case, impl, model)
 
@@ -546,7 +564,7 @@ def run_ternary_case(ctx, name, inplace, container=None):
             "shapes": [list(o.shape) if isinstance(o, torch.Tensor) else None for o in ops], "locked": lock_s}
     site = "ternary_inplace" if inplace else "ternary"
     if container is not None:
-        site = "ternary_containers"
+        site = "nested_lazy" if container == "nested_lazy" else "ternary_containers"
         case["container"] = container
     nontrivial = any(m.startswith("td_") and len(d) >= 2 and [p for p in d if p in s_leaves] != [p for p in s_dfs if p in lv]
                      for m, d, lv in zip(modes, dfs, leaves)) or "tensor" in modes
@@ -597,7 +615,7 @@ def run_ternary_case(ctx, name, inplace, container=None):
     else:
         res = self_td if inplace else r[1]
         impl = ["not-self"] if (inplace and r[1] is not self_td) else canon_result("ok", leaf_dict(res), res.batch_size)
-    if model[0] != "ref-undefined":
+    if model[0] != "ref-undefined" and container != "nested_lazy":
         run.corr(site, case, impl, model)
     # oracle
     exp = None
@@ -748,7 +766,7 @@ def run_compare_case(ctx, name, kind, container=None, site="compare"):
         impl = ["not-a-td", repr(r[1])[:40]]
     else:
         impl = canon_result("ok", leaf_dict(r[1]), r[1].batch_size)
-    if model[0] != "ref-undefined":
+    if model[0] != "ref-undefined" and container != "nested_lazy":
         run.corr(site, case, impl, model)
     exp = None
     try:
@@ -933,7 +951,7 @@ def run_reduction_case(ctx, name, batch, names, spelling, keep, container=None):
         except Exception as e:  # noqa: BLE001  torch rejects the call the model (and the code) makes on a leaf
             model = ["err", err_class(e)]
     # ---- implementation
-    site = "reduction" if container is None else "reduction_containers"
+    site = "reduction" if container is None else ("nested_lazy" if container == "nested_lazy" else "reduction_containers")
     if container is not None:
         td = wrap_container(container, td)
         case["container"] = container
@@ -952,7 +970,8 @@ def run_reduction_case(ctx, name, batch, names, spelling, keep, container=None):
         if not con and impl[2][1] is not None:
             pass
     # nested batch sizes and nested dim names (= the root's) are part of the comparison
-    run.corr(site, case, impl, model)
+    if container != "nested_lazy":
+        run.corr(site, case, impl, model)
     # ---- oracle: torch on every leaf over the batch dims named by the user, batch size = what torch does to the batch shape
     exp = None
     nd = len(batch)
@@ -2091,3 +2110,55 @@ def stream_lazy_compare(ctx: Ctx):
                 run.oracle_fail("container", case, "values differ from the comparison of the stacked entries", f"lazycmp:{name}:{okind}:values")
             else:
                 run.oracle_ok("container")
+
+
+# =========================================================================== a plain tensordict holding NESTED lazy stacks (oracle only)
+
+def stream_nested_lazy(ctx: Ctx):
+    """self = a plain tensordict whose nested tensordicts are lazy stacks of their rows: same content as the dense one, so the
+    per-key torch oracle of every stream applies unchanged (site `nested_lazy`; the repo is frozen: defects are known findings)"""
+    run, rng = ctx.run, ctx.rng
+    ops = _binary_ops(ctx)
+    for op in ops:
+        ref = L.ref_op(op["name"])
+        for _ in range(ctx.n(10, 60)):
+            om = rng.choice(OTHER_MODES_OUT)
+            if op["name"] in ("maximum", "minimum") and om == "scalar":
+                om = "t0"
+            dm = "none"
+            if op["default"] and om.startswith("td_") and rng.random() < 0.45:
+                dm = rng.choice(["inter", "val"])
+            run_binary_case(ctx, op["name"], ref, op["self_kind"], op["other_kind"], "out", om, dm, "nested_lazy", container="nested_lazy")
+        if op["inplace"]:
+            for _ in range(ctx.n(5, 30)):
+                om = rng.choice(OTHER_MODES_INPLACE)
+                if op["name"] in ("maximum", "minimum") and om == "scalar":
+                    om = "t0"
+                run_binary_case(ctx, op["inplace"], ref, op["self_kind"], op["other_kind"], "inplace", om, "none", "nested_lazy", container="nested_lazy")
+    for name in TERN:
+        for _ in range(ctx.n(12, 60)):
+            run_ternary_case(ctx, name, rng.random() < 0.4, container="nested_lazy")
+    for name in L.COMPARE + L.BITWISE_CMP_STYLE:
+        for _ in range(ctx.n(10, 60)):
+            run_compare_case(ctx, name, rng.choice(["smallint", "bool"]), container="nested_lazy", site="nested_lazy")
+    import tensordict.base as B
+    for name, (tok, con, fb, rkind, accepts_keep) in RED.items():
+        if not hasattr(B.TensorDictBase, name):
+            continue
+        for _ in range(ctx.n(8, 50)):
+            batch = rng.choice([b for b in RED_BATCHES if len(b)])
+            sp = rng.choice(dim_spellings(len(batch), tok))
+            keep = rng.choice(("nodef", True, False) if accepts_keep else ("nodef",))
+            names = rng.choice((None, NAMES[:len(batch)]))
+            run_reduction_case(ctx, name, batch, names, sp, keep, container="nested_lazy")
+    # always drawn (regression of fe7c14a repaired by f1678b9): NAMED tensordict x nested lazy stack x the reductions that run through
+    # `_fast_apply` with a batch_size override and without call_on_nested, over every batch dim
+    for name in ("amax", "amin", "min", "max", "cummin", "cummax"):
+        if name not in RED or not hasattr(B.TensorDictBase, name):
+            continue
+        accepts_keep = RED[name][4]
+        for batch in ((2, 3), (1, 2), (3,)):
+            for d in range(-len(batch), len(batch)):
+                keep = rng.choice(("nodef", True, False)) if accepts_keep else "nodef"
+                run.count("nested_lazy.named_reduction", name)
+                run_reduction_case(ctx, name, batch, NAMES[:len(batch)], (["int", d], d), keep, container="nested_lazy")
